@@ -316,10 +316,13 @@ struct Conc : Prop {
 			if (e.oplog[i].task != e.oplog[j].task && e.oplog[i].inv_step < e.oplog[j].ret_step && e.oplog[j].inv_step < e.oplog[i].ret_step) { overlap = true; break; }
 		f.set("nontrivial", is_c11 ? overlap : (overlap && st.overlap3 > 0));
 		f.set("shape", (long long) (pc::shape_hash(e.plan) >> 1));
-		J p = J::obj(); p.set("contract_checks", (long long) g_contract_checks); p.set("torn_read_checks", (long long) torn_checks);
+		J p = J::obj();
 		p.set("unique_messages_read", (long long) pongs_read.size()); p.set("runs_with_overlapping_calls", overlap ? 1 : 0);
-		if (e.plan.has("focus")) p.set("focus_runs_one_entity_hammered", 1);
-		p.set("glib_container_lockset_checks", (long long) sim::lockset_checks()); p.set("glib_containers_shared_between_tasks", (long long) sim::lockset_shared_objects());
+		if (!is_c11) {
+			p.set("contract_checks", (long long) g_contract_checks); p.set("torn_read_checks", (long long) torn_checks);
+			if (e.plan.has("focus")) p.set("focus_runs_one_entity_hammered", 1);
+			p.set("glib_container_lockset_checks", (long long) sim::lockset_checks()); p.set("glib_containers_shared_between_tasks", (long long) sim::lockset_shared_objects());
+		}
 		f.set("probes", p);
 	}
 };
